@@ -239,6 +239,23 @@ func runC15(c *rt.Ctx) {
 			}
 		}
 	})
+	c.Parallel("leap-windows", 0, func(w *rt.W) {
+		years := []int64{-400, -101, -100, -5, -4, -1, 0, 1, 3, 4, 100, 400, 1900, 2000, 2100, 9996}
+		for yi := w.Shard; yi < len(years); yi += w.NShards {
+			o := ref.Ordinal(years[yi], 2, 26)
+			for a := int64(0); a < 7; a++ {
+				for b := int64(0); b < 7; b++ {
+					for p := int64(0); p < 7; p++ {
+						for nc := 0; nc < 4; nc++ {
+							c15Case(w, o+a, o+b, o+p, nc&1 == 1, nc&2 == 2)
+						}
+					}
+				}
+			}
+			w.ClassN("leap-window-year", 1)
+		}
+	})
+	c.Require("leap-window-year", 16)
 	c.Require("far-year-bounds", 1000)
 	// a filter is probed repeatedly: the answer must not depend on what was asked before
 	c.Parallel("probe-histories", 0, func(w *rt.W) {
